@@ -426,6 +426,13 @@ func driveC02(seed int64, tier, out, replay string) {
 			`{ me { __typename friend { __typename id phone } } }`,
 			`{ a: me { name } a: me { phone } }`,
 			`{ me { pets { id } pets { weight } } }`,
+			// helpers the client selects himself through fragments (fix 75235b9), both helpers on one level (2e934d6),
+			// a fragment on an interface inside a union (the union fix)
+			`{ beings { ... on Node { __typename } } }`,
+			`{ beings { ... on Human { name __typename } ... on Node { id } } }`,
+			`{ me { ... on Human { name } ... on Node { uid: id } } }`,
+			`{ me { ... on Human @include(if: true) { id } ... on Node { __typename } phone } }`,
+			`{ beings { ... on Node { ... on Node { id } } ... on Being { __typename } } }`,
 		} {
 			op := gen.GenOp{Query: q, Kind: "query"}
 			hc := c02Case{Hand: true, Op: &op}
